@@ -14,7 +14,7 @@ fn storages() -> (Clocks, Modulators, Listeners) {
     (c, m, l)
 }
 
-// @ob id=C02.4a strength=bounded tier=thorough timeout=10800 bound="ibs 2, 2 frames; one sub-track (one probe sound, routed to the send at 0 dB), one send track (probe effect x*0.5+1/4), main track at 0 dB without effects; dyadic sound value" fn=backend/resources/mixer.rs::Mixer::process
+// @ob id=C02.4a strength=bounded tier=disabled bound="ibs 2, 2 frames; one sub-track (one probe sound, routed to the send at 0 dB), one send track (probe effect x*0.5+1/4), main track at 0 dB without effects; dyadic sound value" fn=backend/resources/mixer.rs::Mixer::process
 // @req one playing sub-track with a send route, one send track
 // @ens out = main(sub_out + send_out) where send_out = effect(sub_out x route gain): the sound reaches the output once directly and once through the send; the mixer's scratch buffer is all zero on return; the send's input is consumed
 #[kani::proof]
@@ -45,7 +45,7 @@ fn c02_4a_mixer_signal_flow() {
     core::mem::forget(clocks); core::mem::forget(modulators); core::mem::forget(listeners);
 }
 
-// @ob id=C12.4a,C08.5a strength=bounded tier=thorough timeout=10800 bound="sub-track capacity 1; one track with one probe sound; handle dropped (removal flag set) before or after the first callback" fn=backend/resources/mixer.rs::Mixer::on_start_processing
+// @ob id=C12.4a,C08.5a strength=bounded tier=disabled bound="sub-track capacity 1; one track with one probe sound; handle dropped (removal flag set) before or after the first callback" fn=backend/resources/mixer.rs::Mixer::on_start_processing
 // @req a sub-track whose handle is dropped
 // @ens it is removed at the next callback (the one after, if it had not been picked up yet) and then contributes exact silence; its slot is reusable; the removed track is not destroyed on the audio side
 #[kani::proof]
@@ -79,7 +79,7 @@ fn c12_4a_dropped_track_is_removed() {
     core::mem::forget(clocks); core::mem::forget(modulators); core::mem::forget(listeners);
 }
 
-// @ob id=C16.2a strength=bounded tier=thorough timeout=10800 bound="one main-track effect, one sub-track with one effect and a nested child with one effect, one send track with one effect (probe effects recording the rate they are given)" fn=backend/resources/mixer.rs::Mixer::{new,on_change_sample_rate}
+// @ob id=C16.2a strength=bounded tier=disabled bound="one main-track effect, one sub-track with one effect and a nested child with one effect, one send track with one effect (probe effects recording the rate they are given)" fn=backend/resources/mixer.rs::Mixer::{new,on_change_sample_rate}
 // @req tracks already owned by the audio thread; sample rate changes from 48000 to 44100
 // @ens every effect on the main track, the sub-track, its nested child and the send track has been told the new rate
 #[kani::proof]
